@@ -11,6 +11,7 @@ both directions — neither run has a pause or kill request pending.  `At c d`: 
 point.  `BMid c d`: both are between two steps of the loop run by one callback.
 -/
 namespace PMF
+set_option linter.unusedSimpArgs false
 
 theorem SRel.symm {cw dw : List WF} {s s' : SObj} (h : SRel cw dw s s') : SRel dw cw s' s := by
   rcases h with ⟨rfl, hn⟩ | ⟨fn, wf, aw, wf', w, h1, h2, h3, h4, h5⟩
@@ -460,7 +461,7 @@ theorem tickDone_entry (P : Prog) (c c0 : Cfg) (h : tickEntry c = some c0) : tic
 
 /-- the callback in both runs: both leave the loop alone (and are then not at a step boundary of a live process), or both
 enter it from related configurations -/
-theorem tickEntry_sim (P : Prog) (hP : NoWaitOn P) (c d : Cfg) (h : At c d) :
+theorem tickEntry_sim (P : Prog) (c d : Cfg) (h : At c d) :
     (tickEntry c = none ∧ tickEntry d = none ∧ At (tickF P 0 c) (tickF P 0 d) ∧
       ((tickF P 0 c).stepping = true ∨ terminal (tickF P 0 c).st.label = true) ∧ (PcOk d → PcOk (tickF P 0 d))) ∨
     (∃ c0 d0, tickEntry c = some c0 ∧ tickEntry d = some d0 ∧ BMid c0 d0 ∧ (Clean d → PcOk d → Clean d0)) := by
@@ -543,7 +544,7 @@ theorem At.not_awaitPaused {c d : Cfg} (h : At c d) : isAwaitPaused c.pc = false
 theorem tick_sim (P : Prog) (hP : NoWaitOn P) (c d : Cfg) (h : At c d) (hcl : Clean d) (hpo : PcOk d) (hD : tickDone P d = true) :
     At (tickStepper P c) (tickStepper P d) ∧ PcOk (tickStepper P d) := by
   rw [← tickF_fuel0, ← tickF_fuel0]
-  rcases tickEntry_sim P hP c d h with ⟨h1, h2, h3, _, h5⟩ | ⟨c0, d0, h1, h2, h3, h4⟩
+  rcases tickEntry_sim P c d h with ⟨h1, h2, h3, _, h5⟩ | ⟨c0, d0, h1, h2, h3, h4⟩
   · rw [tickF_idle P fuel0 c h1 h.not_awaitPaused.1, tickF_idle P fuel0 d h2 h.not_awaitPaused.2]
     exact ⟨h3, h5 hpo⟩
   · rw [tickF_entry P fuel0 c c0 h1, tickF_entry P fuel0 d d0 h2]
